@@ -346,11 +346,11 @@ func (x *Exec) checkPair(cs *callSite, what string, srcArg, igArg *Val, haveSrc,
 	}
 	name := x.oblName(cs.fr, "sql-pair["+what+"]", cs.pos)
 	if !haveSrc || !haveIg {
-		x.check(st, "frame", name, TFalse, []string{"C04"}, "statement is not restricted to the task's own (src_name, ig_name) pair", x.pos(cs.pos))
+		x.check(st, "frame", name, TFalse, []string{"C04", "C03"}, "statement is not restricted to the task's own (src_name, ig_name) pair", x.pos(cs.pos))
 		return
 	}
-	x.check(st, "frame", name+".src", Eq(x.term(srcArg), src), []string{"C04"}, "src_name parameter is the task's own source name", x.pos(cs.pos))
-	x.check(st, "frame", name+".ig", Eq(x.term(igArg), ig), []string{"C04"}, "ig_name parameter is the task's own integration name", x.pos(cs.pos))
+	x.check(st, "frame", name+".src", Eq(x.term(srcArg), src), []string{"C04", "C03"}, "src_name parameter is the task's own source name", x.pos(cs.pos))
+	x.check(st, "frame", name+".ig", Eq(x.term(igArg), ig), []string{"C04", "C03"}, "ig_name parameter is the task's own integration name", x.pos(cs.pos))
 }
 
 // execSQL applies the effect of a modifying statement to the ghost view.
